@@ -1137,6 +1137,8 @@ def isinstance_(I, v, c):
             if isinstance(v, SObj):
                 return n in I.E.exc_class_chain(v.cls)
             return False
+    if isinstance(c, NativeFn) and getattr(c, "isinstance_hook", None) is not None:          # a builtin type a contract replaced by a model of its constructor
+        return c.isinstance_hook(I, v)
     if isinstance(c, External):
         h = I.E.external_isinstance.get(c.key)
         if h is not None:
